@@ -378,12 +378,22 @@ pub fn stream_len(area: u64) -> BoxedStrategy<StreamLen> {
     .boxed()
 }
 
+/// colour seeds: mostly arbitrary, sometimes from a tiny palette so that calls of one program
+/// repeat a colour (state carried from one call to the next, e.g. a staged fill pattern, shows up)
+pub fn seed() -> BoxedStrategy<u32> {
+    prop_oneof![
+        3 => any::<u32>(),
+        2 => proptest::sample::select(vec![1u32, 2, 3]),
+    ]
+    .boxed()
+}
+
 /// one in-bounds drawing call for logical size (lw, lh)
 pub fn op_in(lw: u32, lh: u32, big: bool) -> BoxedStrategy<DrawOp> {
     let cap = if big { 1 << 14 } else { 1 << 10 };
-    let sp = (edge_u32(lw - 1), edge_u32(lh - 1), any::<u32>())
+    let sp = (edge_u32(lw - 1), edge_u32(lh - 1), seed())
         .prop_map(|(x, y, seed)| DrawOp::SetPixel { x: x as u16, y: y as u16, seed });
-    let sps = (inner_rect(lw, lh, cap), any::<u32>(), 0u32..=100)
+    let sps = (inner_rect(lw, lh, cap), seed(), 0u32..=100)
         .prop_map(|(r, seed, pct)| {
             let area = r.area() as u32;
             let n = if pct >= 60 { area } else { (area as u64 * pct as u64 / 60) as u32 };
@@ -396,12 +406,12 @@ pub fn op_in(lw: u32, lh: u32, big: bool) -> BoxedStrategy<DrawOp> {
                 seed,
             }
         });
-    let di = (pts_in(lw, lh, 5, 260), any::<u32>()).prop_map(|(pts, seed)| DrawOp::DrawIter { pts, seed });
-    let fc = (inner_rect(lw, lh, cap), any::<u32>())
+    let di = (pts_in(lw, lh, 5, 260), seed()).prop_map(|(pts, seed)| DrawOp::DrawIter { pts, seed });
+    let fc = (inner_rect(lw, lh, cap), seed())
         .prop_flat_map(|(r, seed)| (Just(r), Just(seed), stream_len(r.area())))
         .prop_map(|(rect, seed, len)| DrawOp::FillContiguous { rect, len, seed });
-    let fs = (inner_rect(lw, lh, u32::MAX), any::<u32>()).prop_map(|(rect, seed)| DrawOp::FillSolid { rect, seed });
-    let cl = any::<u32>().prop_map(|seed| DrawOp::Clear { seed });
+    let fs = (inner_rect(lw, lh, u32::MAX), seed()).prop_map(|(rect, seed)| DrawOp::FillSolid { rect, seed });
+    let cl = seed().prop_map(|seed| DrawOp::Clear { seed });
     prop_oneof![
         3 => sp,
         2 => sps,
@@ -491,6 +501,9 @@ pub fn wild_interval(l: u32) -> BoxedStrategy<(i32, u32)> {
         (0..l).prop_map(|k| (65536 + k as i32, 3)),
         // huge width starting left of the display, covering it completely
         (1i64..=1000).prop_map(move |a| ((-a) as i32, (li + a + 100_000) as u32)),
+        // more than 65536 clipped points per row on the left / on both sides
+        (65_530i64..=200_000).prop_map(move |a| ((-a) as i32, (li + a) as u32)),
+        (65_530i64..=70_000, 0i64..=70_000).prop_map(move |(a, b)| ((-a) as i32, (li + a + b) as u32)),
         Just((i32::MIN, i32::MAX as u32)),
         Just((-1, i32::MAX as u32)),
         Just((0, i32::MAX as u32)),
@@ -525,12 +538,12 @@ pub fn wild_rect(lw: u32, lh: u32) -> BoxedStrategy<Rect> {
 }
 
 pub fn op_wild(lw: u32, lh: u32) -> BoxedStrategy<DrawOp> {
-    let di = (pts_wild(lw, lh, 5, 200), any::<u32>()).prop_map(|(pts, seed)| DrawOp::DrawIter { pts, seed });
-    let fc = (wild_rect(lw, lh), any::<u32>())
+    let di = (pts_wild(lw, lh, 5, 200), seed()).prop_map(|(pts, seed)| DrawOp::DrawIter { pts, seed });
+    let fc = (wild_rect(lw, lh), seed())
         .prop_flat_map(|(r, seed)| (Just(r), Just(seed), stream_len(r.area())))
         .prop_map(|(rect, seed, len)| DrawOp::FillContiguous { rect, len, seed });
-    let fs = (wild_rect(lw, lh), any::<u32>()).prop_map(|(rect, seed)| DrawOp::FillSolid { rect, seed });
-    let cl = any::<u32>().prop_map(|seed| DrawOp::Clear { seed });
+    let fs = (wild_rect(lw, lh), seed()).prop_map(|(rect, seed)| DrawOp::FillSolid { rect, seed });
+    let cl = seed().prop_map(|seed| DrawOp::Clear { seed });
     prop_oneof![
         5 => di,
         4 => fc,
